@@ -166,6 +166,16 @@ def worker_main(argv):
     signal.signal(signal.SIGALRM, _alarm)
     case_limit = float(os.environ.get('VERIF_CASE_LIMIT', 45 if a.tier == 'quick' else 180))
     out['hung'] = []
+
+    def _checkpoint():
+      # what this worker has found so far, in case it never gets to write its final result (code
+      # under test that spins without yielding and swallows the per-case alarm)
+      try:
+        with open(a.out + '.tmp', 'w') as f_:
+          json.dump(dict(out, partial=True, anchors=dict(boot.REACH.counts), lines={}), f_)
+        os.replace(a.out + '.tmp', a.out)
+      except Exception:
+        pass
     for idx in idxs:
       if boot.REAL_MONO() - t0 > budget and a.only is None and a.upto is None:
         out['cut_short'] = True
@@ -173,7 +183,9 @@ def worker_main(argv):
       rng = case_rng(a.prop, a.seed, idx)
       if env is not None:
         env.begin_case(rng, idx)
-      signal.setitimer(signal.ITIMER_REAL, case_limit)
+      # the alarm repeats: the first one may end up in a greenlet of the code under test and be
+      # swallowed there with the loop still spinning in another one
+      signal.setitimer(signal.ITIMER_REAL, case_limit, 3.0)
       if a.upto is not None and idx == a.upto and os.environ.get('VERIF_DEBUG_PRE'):
         exec(open(os.environ['VERIF_DEBUG_PRE']).read(), {'env': env, 'check': check})
         signal.setitimer(signal.ITIMER_REAL, 0)
@@ -181,7 +193,8 @@ def worker_main(argv):
         res = check.run_case(env, rng, idx, a.tier)
       except CaseHang:
         out['hung'].append(idx)
-        if len(out['hung']) >= 3:
+        _checkpoint()
+        if len(out['hung']) >= 3 or out['violations']:
           out['cut_short'] = True
           break
         continue
@@ -209,6 +222,8 @@ def worker_main(argv):
           out['violations'].append(v)
         else:
           out['extra']['violations_dropped'] = out['extra'].get('violations_dropped', 0) + 1
+      if res.violations:
+        _checkpoint()
       if res.sample is not None and len(out['samples']) < 3:
         out['samples'].append(_jsonable(res.sample))
       if env is not None:
@@ -354,6 +369,8 @@ def runner_main(argv):
   events = 0
   cut = False
   for r in results:
+    if r.get('partial'):
+      problems.append('a worker did not finish (killed by the watchdog or crashed); what it had found until then is used')
     if r.get('error'):
       problems.append('worker error: ' + r['error'][-1500:])
     for c in r.get('canary_errors', []):
